@@ -44,6 +44,12 @@ func (fx *fexec) externModel(key string, x *ssa.Call, f *ssa.Function, args []Va
 	case "slices.Delete":
 		return fx.slicesDelete(x, args, st, pos), true
 	}
+	if strings.HasPrefix(key, "math/big.") {
+		if r, ok := fx.bigModel(key, x, args, st, pos); ok {
+			return r, true
+		}
+		panic(engErr("math/big function outside the modelled set: " + key))
+	}
 	if strings.HasPrefix(key, "log/slog.") || strings.HasPrefix(key, "log.") {
 		return vc.freshResult(st, rt, x.Name()), true
 	}
